@@ -149,7 +149,7 @@ def _combos(label, quick):
         sl = _lens(16)
         return [(p, s) for p in pws for s in (sl if not quick else (0, 1, 17))]
     L = _lens(blk)
-    if quick:
+    if quick and label in OBJECT_HASHES:
         return [(p, 1) for p in L] + [(1, s) for s in L if s != 1]
     return [(p, s) for p in L for s in L]
 
@@ -185,7 +185,7 @@ def pbkdf2_tasks(quick):
                 dl = range(1, 3 * h + 2)
                 T.append((_pb_cost(label, count, dl, path),
                           ("pbkdf2", label, ("asc", p), ("seed", s), count, "range", alldk)))
-            if path == "fast":
+            if path == "fast" and (not quick or p == 1 or s == 1):
                 dl = range(1, 3 * h + 2)
                 T.append((_pb_cost(label, 1000, dl, path),
                           ("pbkdf2", label, ("asc", p), ("seed", s), 1000, "range", alldk)))
